@@ -5,6 +5,8 @@
 package spec
 
 import (
+	"github.com/basecomplextech/baselibrary/buffer"
+	"github.com/basecomplextech/spec/internal/decode"
 	"github.com/basecomplextech/spec/internal/types"
 )
 
@@ -30,4 +32,12 @@ func OpenValueErr(b []byte) (Value, error) {
 // ParseValue recursively parses and returns a value.
 func ParseValue(b []byte) (_ Value, n int, err error) {
 	return types.ParseValue(b)
+}
+
+// WriteValue writes a raw value into a buffer, it is the write function of generated lists of any values.
+func WriteValue(b buffer.Buffer, v Value) (int, error) {
+	if _, _, err := decode.DecodeType(v); err != nil {
+		return 0, err
+	}
+	return b.Write(v)
 }
